@@ -10,7 +10,7 @@ if [ -n "$(git -C "$REPO" status --porcelain)" ]; then echo "$REPO not clean"; e
 mkdir -p .scratch
 for NAME in "$@"; do
   P=$(echo "$NAME" | cut -d- -f1)
-  git -C "$REPO" apply "seeded/$NAME/patch.diff" || { echo "$NAME $P patch-does-not-apply"; continue; }
+  git -C "$REPO" apply "$PWD/seeded/$NAME/patch.diff" || { echo "$NAME $P patch-does-not-apply"; continue; }
   VERIF_SCRATCH="$PWD/.scratch/sweep" ./check "$P" --tier quick > ".scratch/sweep-$NAME.log" 2>&1
   rc=$?
   git -C "$REPO" checkout -- .
